@@ -5,7 +5,7 @@ from .common import TRUSTED, ASSUMPTIONS, default_nontrivial, LEVEL_NOTE, TECHNI
 LEVEL = "proof"
 THEOREMS = ['C08_lift','C08_some_dist','C08_never_nan','C08_fixed_point','C08_none_iff','C08_none_iff_general','C08_none_iff_no_informative','C08_deduce_none_iff','C08_fallback_lazy','C08_fallback_some','C08_abduce_none_iff']
 RULE = ("mbr / deduce / deduce_with / abduce on base rates with zero entries x conditional tables mixing vacuous, dogmatic and "
-        "partially informative conditionals (incl. 'informative only where the base rate is zero' and all-vacuous); |X| 2..4, "
+        "partially informative conditionals (incl. 'informative only where the base rate is zero', 'informative only where the base rate is tiny or subnormal' and all-vacuous); |X| 2..4, "
         "|Y| 2..3; dyadic grids; families A/M/D/N, owned/borrowed tables; f32+f64. non-trivial = distinct case with a value or None")
 EXHAUSTIVE = {}
 LEVEL_TEXT = ("Theorems over the exact model for all sizes: mbr returns None or a NaN-free distribution satisfying the fixed point "
@@ -62,6 +62,22 @@ def cases(rng, tier):
                         bb, uu = [0.0] * m, 1.0
                     conds += bb + [uu]
                 ax = [float(v) for v in G.rand_dist(rng, n, 8, positive=True)]
+            elif rng.random() < 0.1:
+                # belief-carrying conditionals only at base rates that are positive but tiny, down to the subnormals (the
+                # normaliser sum_x a(x)(1-u_x) is then subnormal: reciprocals overflow, products underflow); the other base
+                # rates are dyadic and sum to 1 (the tiny entry is absorbed by the float sum)
+                z = rng.randrange(n)
+                tiny = rng.choice([5e-324, 1e-310, 3e-309, 1e-300, 2.0 ** -200, G.EPS[fmt] ** 2, G.EPS[fmt] / 2] if fmt == "f64"
+                                  else [1e-45, 1e-40, 3e-39, 1e-38, 2.0 ** -60, G.EPS[fmt] ** 2, G.EPS[fmt] / 2])
+                rest = [i for i in range(n) if i != z]
+                c = G.composition(rng, den, len(rest))
+                ax = [0.0] * n
+                for i, k in zip(rest, c):
+                    ax[i] = k / den
+                ax[z] = G.round_fmt(fmt, tiny)
+                kinds = ["vac"] * n
+                kinds[z] = rng.choice(["int", "dog"])
+                conds = [float(v) for v in G.rand_cond(rng, n, m, den, kinds)]
             fam = rng.choice(G.FAMS_1D)
             st = rng.choice(["o", "r"])
             r = rng.random()
